@@ -28,6 +28,16 @@ CLAIMS = {
             "with the cursor's clause as reason; try_add_decision separates new/same/opposite. Soundness of first-UIP itself and the "
             "watch invariants under undo are not decided.",
             "DESIGN.md section 4 C02"),
+    "C04": ("guard-dominance rules for indexing / watch distinctness / protocol preconditions, reviewed census of reachable explicit panic sites (call-graph closure over MIR)",
+            "Decides exact disciplines whose violation is a panic or a non-terminating traversal on some well-formed input: length "
+            "test or resize dominates every index into the id-indexed growable tables; binary clauses get provably distinct watch "
+            "variables (Constrains(parent==forbidden) is the listed known finding D7); the not-false protocol behind the assertions "
+            "in Clause::requires/constrains; soft requirements re-checked per iteration; cache getters fail only on a miss; the "
+            "conflict-message traversal marks candidates before pushing their children; and every explicit panic site reachable "
+            "from solve / graph / graphviz / display_user_friendly is in a reviewed table (new sites are violations), with and "
+            "without debug assertions in the thorough tier. Five genuine panics/hangs found this way or by seeding were repaired. "
+            "Termination of the CDCL loop and the invariants classed `assumed` are not decided.",
+            "DESIGN.md section 4 C04"),
     "C05": ("who-may-call census of positive literals and constant-true decisions, guard dominance in decide(), loop-exit analysis of undo (MIR)",
             "Decides the mechanisms the anchors name as complete censuses over the resolved program: the only creators of positive "
             "literals are Requires clauses (candidates) and at-most-one helper variables; the only constant-true decisions are the "
